@@ -304,7 +304,13 @@ func checkC08Lines(s *C08Lines) Result {
 			// the same on a builder that was used and emptied before (Take
 			// returns it to the state of a new one)
 			var sb redact.StringBuilder
-			sb.Print(line)
+			// (earlier content of the same length, ending in a closing marker
+			// the builder wrote itself)
+			if n := len(l) - 6; n > 0 {
+				sb.UnsafeString(strings.Repeat("x", n))
+			} else {
+				sb.Print(line)
+			}
 			_ = sb.TakeRedactableString()
 			sb.Print(line)
 			sb.UnsafeBytes(s.Cont)
